@@ -179,10 +179,10 @@ MUTABLE = ('unknowns', 'extracted', 'item_lab_stack', 'the_macros',
            'the_environments')
 
 
-def parser_field_specs(src):
+def parser_field_specs(src, flows=None):
     return {
         'unknowns': ListS(StrS(name='unk'), None, 'unknowns'),
-        'extracted': ListS(tm.DocList(src), None, 'extracted'),
+        'extracted': flows or ListS(tm.DocList(src), None, 'extracted'),
         'item_lab_stack': ListS(TupleS(AnyS('labelgen'), StrS(name='env')),
                                 lambda n: zint(n) >= 1, 'labstack'),
         'the_macros': MacDictS('macro'),
@@ -192,14 +192,15 @@ def parser_field_specs(src):
 
 class ParserS(Spec):
     """Parser object satisfying ParserInv for the source text src"""
-    def __init__(self, src):
+    def __init__(self, src, flows=None):
         self.src = src
+        self.flows = flows      # spec of self.extracted (default Doc(src))
 
     def make(self, ex, st):
         o = Obj(PARSER, {}, fresh=False)
         o.fields['parms'] = cm.ParmsWithScannerS().make(ex, st)
         o.fields['latex'] = self.src
-        for k, sp in parser_field_specs(self.src).items():
+        for k, sp in parser_field_specs(self.src, self.flows).items():
             o.fields[k] = sp.make(ex, st)
         o.fields['item_macro'] = MacroS('macro', args='O').make(ex, st)
         o.fields['read_macros'] = OptCallable(fresh_bool('noread'),
@@ -217,14 +218,14 @@ class ParserS(Spec):
             raise EngineError('%s: expected Parser, got %r' % (label, v))
         cm.SameS(self.src).check(ex, st, v.fields['latex'],
                                  label + '.latex', line)
-        specs = parser_field_specs(self.src)
+        specs = parser_field_specs(self.src, self.flows)
         for k in ('item_lab_stack', 'extracted', 'unknowns', 'the_macros',
                   'the_environments'):
             specs[k].check(ex, st, v.fields[k], label + '.' + k, line)
 
     def remake(self, ex, st, cur):
         """call-site havoc of the mutable parser state"""
-        for k, sp in parser_field_specs(self.src).items():
+        for k, sp in parser_field_specs(self.src, self.flows).items():
             cur.fields[k] = sp.make(ex, st)
             st.writes.append((cur.oid, k))
         p = cur.fields['parms']
